@@ -78,36 +78,8 @@ let parse_cfg (hdr : string list) : cfgx =
   in
   { cfg; nakp = !nakp; closure = !closure; ck = !ck; src = !src; dst = !dst; file = !file }
 
-(* ---- parameters of the models (trusted glue of the correspondence) *)
-(* modular checksum; replaced by the extracted Checksum.spec once that component is merged *)
-let cksum (t : cktype) (b : n list) : n =
-  match t with
-  | CkNull -> N0
-  | CkModular ->
-      let rec go acc l =
-        match l with
-        | [] -> acc
-        | _ ->
-            let take k l = let rec f k l a = if k = 0 then (List.rev a, l) else match l with [] -> (List.rev a, []) | x :: t -> f (k - 1) t (x :: a) in f k l [] in
-            let w, rest = take 4 l in
-            let w = w @ List.init (4 - List.length w) (fun _ -> N0) in
-            let v = List.fold_left (fun a x -> (a * 256) + int_of_n x) 0 w in
-            go ((acc + v) land 0xFFFFFFFF) rest
-      in
-      n_of_int (go 0 b)
-
-type fsx = (n list * n list) list (* flat filestore: name -> content *)
-
-(* a name with a '/' lies in a directory the harness never creates: open() fails *)
-let fs_write_file (fs : fsx) (name : n list) (content : n list) : fsx option =
-  if List.exists (fun c -> int_of_n c = 0x2f) name then None
-  else Some ((name, content) :: List.filter (fun (k, _) -> k <> name) fs)
-
-let fs_exec (fs : fsx) (r : fsreq) : fsx * fsresp = (fs, r)
-let resp_fail (_ : fsresp) = false
-let not_performed (r : fsreq) : fsresp = r
-let resp_len (r : fsresp) : n = n_of_int (2 + List.length r)
-let req_len (r : fsreq) : n = n_of_int (2 + List.length r)
+(* the parameters of the models are instantiated in Coq (Model/TxInst.v) and extracted *)
+type fsx = flat_fs
 
 (* ---- text *)
 let sn = string_of_n
@@ -239,7 +211,7 @@ let run_recv path =
             let t = split_ws l in
             let nown () = n_of_z !now in
             let step op =
-              let s', r = rstep fs_write_file fs_exec resp_fail not_performed cksum resp_len req_len (nown ()) op !st in
+              let s', r = inst_rstep (nown ()) op !st in
               st := s';
               (r, s'.r_out)
             in
@@ -260,7 +232,7 @@ let run_recv path =
               | _ -> failwith ("recv: bad op " ^ l)
             in
             let s = !st in
-            let dest = List.assoc_opt c.dst s.r_fs in
+            let dest = flat_lookup s.r_fs c.dst in
             obs_line res outs s.r_state (has_pdu_to_send s) (until_timeout (nown ()) s) s.r_recvd dest;
             if res = RErr || s.r_state = TTerminated then stop := true)
         ops)
@@ -285,7 +257,7 @@ let run_send path =
             let t = split_ws l in
             let nown () = n_of_z !now in
             let step op =
-              let s', r = sstep cksum resp_len req_len (nown ()) op !st in
+              let s', r = inst_sstep (nown ()) op !st in
               st := s';
               (r, s'.s_out)
             in
